@@ -10,7 +10,7 @@ LINEAR_SRCS = [1, 4, 5, 6, 7]
 
 def prof(base, moves, depth, srcs=None, heaps="SrcHeapsCore", **kw):
     p = dict(base=base, overrides=dict(Moves=moves, SrcHeaps=heaps),
-             defs=dict(MaxDepth=depth, SrcSel=srcs or LINEAR_SRCS),
+             defs=dict(MaxDepth=depth, SrcSel=srcs or LINEAR_SRCS, AllowUndef=kw.pop("allow_undef", False)),
              invariants=["ScopeWF"], properties=MODEL_PROPS, timeout=kw.pop("timeout", 600))
     p.update(kw)
     return p
@@ -18,7 +18,7 @@ def prof(base, moves, depth, srcs=None, heaps="SrcHeapsCore", **kw):
 
 def prof2(moves, depth, pairs, **kw):
     p = dict(base="MC_Heap", overrides=dict(Moves=moves, SrcHeaps="SrcHeapsPair"),
-             defs=dict(MaxDepth=depth, SrcPairs=pairs),
+             defs=dict(MaxDepth=depth, SrcPairs=pairs, AllowUndef=False),
              invariants=["WF1", "WF2", "WF3", "WF4", "WF5", "WF6", "WF7", "ScopeWF"], properties=MODEL_PROPS, timeout=kw.pop("timeout", 600))
     p.update(kw)
     return p
@@ -42,6 +42,7 @@ PROFILES = {
     "win3": prof("MC_Focus", "MovesWin", 3, srcs=[1, 6]),
     "imm3": prof("MC_Focus", "MovesImm", 3, srcs=[1, 6]),
     "imm4": prof("MC_Focus", "MovesImm", 4, srcs=[1]),
+    "fn1": prof("MC_Fn", "MovesFn", 1, srcs=[9], allow_undef=True),
     "ty2": prof("MC_Focus", "MovesTy", 2, srcs=[1, 8, 4]),
     "err2": prof("MC_Focus", "MovesErr", 2, srcs=[1, 4]),
     "err3": prof("MC_Focus", "MovesErr", 3, srcs=[1]),
@@ -84,6 +85,11 @@ CHECKS = {
         level="model_checking",
         clauses=GEN_CLAUSES_SPEC,
         phases=dict(quick=[dict(profile="core2")], thorough=[dict(profile="core2"), dict(profile="core3")]),
+    ),
+    "C03": dict(
+        level="model_checking",
+        clauses={"rows", "order", "names", "accept", "export-error", "cross-rows"},
+        phases=dict(quick=[dict(kind="laws"), dict(profile="fn1")], thorough=[dict(kind="laws"), dict(profile="fn1")]),
     ),
     "C04": dict(
         level="model_checking",
@@ -149,6 +155,11 @@ MANIFEST_TEXT = {
              "the specification predicts the complete table after every step, and every distinct prefix is executed on Polars and on SQLite "
              "and compared cell by cell with the prediction (an independent row-by-row semantics, so a defect common to both back ends is caught).",
         note=TRUST, technique="TLA+ spec + TLC exhaustive generation, replay on real code against predicted observations"),
+    "C03": dict(
+        level="model_checking",
+        clauses={"rows", "order", "names", "accept", "export-error", "cross-rows"},
+        phases=dict(quick=[dict(kind="laws"), dict(profile="fn1")], thorough=[dict(kind="laws"), dict(profile="fn1")]),
+    ),
     "C04": dict(
         level="model_checking",
         clauses=GEN_CLAUSES_SPEC,
@@ -159,6 +170,11 @@ MANIFEST_TEXT = {
         clauses=GEN_CLAUSES_SPEC,
         phases=dict(quick=[dict(profile="win2"), dict(profile="wins3")],
                     thorough=[dict(profile="win2"), dict(profile="win3"), dict(profile="wins4")]),
+    ),
+    "C03": dict(
+        level="model_checking",
+        clauses={"rows", "order", "names", "accept", "export-error", "cross-rows"},
+        phases=dict(quick=[dict(kind="laws"), dict(profile="fn1")], thorough=[dict(kind="laws"), dict(profile="fn1")]),
     ),
     "C04": dict(
         text="TLC enumerates group_by / summarize pipelines over the aggregate focus alphabet (every aggregate, filter=, expressions over "
